@@ -304,8 +304,9 @@ Definition lbl_sched (l : label) : option nat :=
 Definition view_of_code (c : xcode) : view := match c with XFail => VError | _ => VDone end.
 
 (* The transition function: None = the effect is not enabled in this state.
-   [fixed] = aio_process() treats a pid file without content as "no process information"
-   (true: repaired code; false: the pinned code, where json.loads("") raises inside aio_submit). *)
+   [fixed] = the repaired code: aio_process() treats a pid file without content as "no process
+   information", and the job script is written aside and renamed;  false = the pinned code, where
+   json.loads("") raises inside aio_submit and the script is rewritten in place. *)
 Definition lstep_with (fixed : bool) (l : label) (st : jobdir) : option jobdir :=
   match l with
   | LSubmit s => if sover (scheds st s) then Some (set_sched st s STest1) else None
@@ -348,7 +349,13 @@ Definition lstep_with (fixed : bool) (l : label) (st : jobdir) : option jobdir :
       | STrunc => Some (set_sched (set_lock st (release (ASched s) (lock st))) s SReady)
       | _ => None
       end
-  | LTrunc s => match scheds st s with STrunc => Some (set_sched (set_script st SEmpty) s SWrite) | _ => None end
+  | LTrunc s =>
+      (* pinned code: <name>.py is rewritten in place, open("wt") empties it; repaired code: the text goes to a
+         temporary file that LWrite renames into place, the script itself is never seen empty *)
+      match scheds st s with
+      | STrunc => Some (set_sched (if fixed then st else set_script st SEmpty) s SWrite)
+      | _ => None
+      end
   | LWrite s => match scheds st s with SWrite => Some (set_sched (set_script st SFull) s SSpawn) | _ => None end
   | LSpawn s =>
       match scheds st s with
